@@ -119,6 +119,8 @@ def check(spec, ctx):
     if spec["base"] in BASES:
         import importlib
         base = getattr(importlib.import_module("moclo.kits." + spec["base"]), BASES[spec["base"]])
+    elif spec["base"] == "concrete":
+        base = kits.resolve_class(spec["cls"])      # characterize called on a concrete type
     else:
         e0 = dna.enzyme_by_name(spec["enzyme"])
         base = type(str("UserBase"), (AbstractPart,), {"cutter": e0, "signature": NotImplemented})
@@ -263,6 +265,17 @@ def _char_specs(draw):
         style, up, down = draw(_overhangs(sig, [s for r, s, en in sigs if len(s[0]) == g.k]))
         return {"kind": "characterize", "base": kit, "role": "M" if role_ == "module" else "V",
                 "rec_enzyme": ename, "rec": draw(_rec(g, up, down))}
+    if draw(st.integers(0, 3)) == 0:
+        # characterize called directly on a concrete type (its only candidate is itself)
+        name = draw(st.sampled_from(derived_parts()))
+        cls = kits.resolve_class(name)
+        g = dna.geometry(cls.cutter)
+        kit = name.split(".")[0]
+        sibs = [kits.resolve_class(n).signature for n in derived_parts() if n.startswith(kit)]
+        style, up, down = draw(_overhangs(cls.signature, [x for x in sibs if len(x[0]) == g.k]))
+        return {"kind": "characterize", "base": "concrete", "cls": name,
+                "role": "M" if kits.role_of(cls) == "module" else "V",
+                "rec_enzyme": cls.cutter.__name__, "rec": draw(_rec(g, up, down))}
     ename = draw(plasmid.enzyme_strategy())
     subs = []
     for _ in range(draw(st.integers(1, 4))):
